@@ -41,11 +41,14 @@ fields, types embedded in type values / capabilities / functions well-scoped):
 and `types_roundtrip`: decodeTypeTop (prepareType t) = .ok t.
 Proved: the second conjunct for every value (`reencode_erase`) and the first conjunct for every value
 built from scalars (void, nil, booleans, strings, single-code-point characters, addresses, every
-integer kind within its range, paths) with optionals, arrays, dictionaries, inclusive ranges and
+integer and fixed-point kind within its range, paths) with optionals, arrays, dictionaries, inclusive ranges and
 composite values (struct, resource, event, contract, enum; any declared field types and
-initializers) at any nesting (`roundtrip_partial`).  Missing: fixed-point values, capabilities, type
-values and functions (the embedded types; `types_roundtrip`) — covered by the correspondence stream
-(the Go decoder's answer is compared with `erase v` on every generated value).
+initializers) at any nesting (`roundtrip_partial`); `types_roundtrip` for types built from simple types
+with optionals, arrays, dictionaries, ranges, capabilities and unauthorized references
+(`types_roundtrip_partial`), and with it the round trip of type values and capability values of such
+types.  Missing: functions, and embedded types with composite / interface /
+intersection / function types or entitlements — covered by the correspondence stream (the Go decoder's
+answer is compared with `erase v` on every generated value).
 -/
 
 /-- Round trip for values built from scalars with optionals, arrays, dictionaries, ranges and
@@ -57,8 +60,30 @@ theorem roundtrip_partial (v : CValue) (h : plainOk v = true) :
 
 example : plainOk (.int "Int128" (-(2:Int)^127)) = true := by decide
 example : plainOk (.int "UInt8" 255) = true ∧ plainOk (.int "UInt8" 256) = false := by decide
+example : plainOk (.fix "UFix64" 18446744073709551615) = true ∧ plainOk (.fix "Fix64" (-1)) = true := by decide
+
+/-- The decimal text of fixed-point numbers (`encodeFix64` / `format.Fix128`: sign, integer part,
+point, fraction padded to the scale) is read back by the port of `fixedpoint.parseFixedPoint` to the
+same raw value, for every scale > 0 and every integer. -/
+theorem fixed_text_roundtrip (scale : Nat) (hs : 0 < scale) (raw : Int) :
+    goParseFixed scale (showFixed scale raw) = some raw := goParseFixed_showFixed scale hs raw
 example : plainOk (.comp (.comp .struct "A.0000000000000001.C.S" .nil (.cons "xs" (.varr (.prim "Int")) .nil) .nil)
     (.cons (.arr (.varr (.prim "Int")) (.cons (.some (.int "Int" 5)) .nil)) .nil)) = true := by decide
+
+/-- Every embedded type without composite types decodes to the same type, whatever the state of the
+encoder's and decoder's tables of repeated types (which it leaves unchanged). -/
+theorem types_roundtrip_partial (t : CType) (h : simpleT t = true) (ps : PResults) (rs : Results) :
+    (prepareTypeR t ps).2 = ps ∧ decodeType (prepareTypeR t ps).1 rs = .ok (t, rs) :=
+  simpleT_rt t h ps rs
+
+example : simpleT (.dict (.prim "String") (.opt (.carr 3 (.ref .unauth (.prim "AnyStruct"))))) = true := by decide
+
+/-- Round trip of type values and capability values whose embedded type has no composite types. -/
+theorem roundtrip_embedded_types_partial (t : CType) (h : simpleT t = true) (id : Nat) (a : List UInt8)
+    (hid : id < 2 ^ 64) (ha : a.length = 8) :
+    decode (prepare (.type t)) = .ok (erase (.type t)) ∧
+    decode (prepare (.cap id a t)) = .ok (erase (.cap id a t)) :=
+  ⟨rt_typeValue t h, rt_capability id a t hid ha h⟩
 
 /-- Decoding is total: the port of the decoder is a terminating function whose every missing or
 ill-typed field is an error value (there is no partiality in the model; the escaping Go panic that
